@@ -220,6 +220,12 @@ pub use crate::tcp::server::verif_tracker::VerifTracker;
 #[cfg(feature = "enable-tls")]
 pub use crate::tcp::tls::server::verif_role::extract_role_from_der;
 
+/// Number of further commands the channel's queue accepts without making the sender wait
+/// (lets a driver recognise submissions whose sender has to wait for capacity)
+pub fn free_queue_slots(channel: &crate::client::Channel) -> usize {
+    channel.tx.capacity()
+}
+
 impl VerifClient {
     /// `ClientLoop::fail_requests`
     pub async fn fail_requests(&mut self) -> WaitEnd {
